@@ -159,14 +159,17 @@ def execute(sc, ctx):
                              f"{where}: model {mi} type {T.__name__}: listing "
                              f"{[getattr(c.agent, 'id', '?') for c in real] if got is not None else None} expected "
                              f"{[c.agent.id for c in want] or None}", finding=tag)
-                ctx.check(got2 is got, "listing-accessors-disagree", f"{where}: systems[T] vs get_components(T)")
+                ctx.check((got2 is None and got is None) or (got2 is not None and got is not None and len(got2) == len(got)
+                                                              and all(x is y for x, y in zip(got2, got))),
+                          "listing-accessors-disagree", f"{where}: systems[T] vs get_components(T)")
                 if not want:
                     st, v = ctx.call(sm.get_components, T, True)
                     ctx.check(st == "exc" and isinstance(v, KeyError), "empty-listing-strict",
                               f"{where}: get_components({T.__name__}, True) on an empty listing did not raise KeyError")
                 else:
                     st, v = ctx.call(sm.get_components, T, True)
-                    ctx.check(st == "ok" and v is got, "listing-strict", f"{where}: {T.__name__}")
+                    ctx.check(st == "ok" and v is not None and len(v) == len(got) and all(x is y for x, y in zip(v, got)),
+                              "listing-strict", f"{where}: {T.__name__}")
             ctx.check([a.id for a in mm.env] == [mm.agents[k].id for k in mm.residents], "membership", f"{where}: model {mi}")
         types_here = [{T for k in mm.residents for T in mm.agents[k].components if T is not PositionComponent} for mm in models]
         if len(models) >= 2 and any(types_here[i] & types_here[j] for i in range(len(models)) for j in range(i)):
